@@ -63,7 +63,8 @@ def value_layouts():
     en = [{"raw": crit.tv_int(v), "label": lab} for v, lab in ((0, "OFF"), (1, "ON"), (2, "STANDBY_MODE_LONG_LABEL"), (3, "é"))]
     cal = {"default": poly([(rat(1, 2), 0), (rat(3), 1)]), "context": []}
     fields = [("EN", xdoc.ptype_num("enum", xdoc.numeric_enc("int", 2), enum=en), 2), ("BO", xdoc.ptype_num("bool", xdoc.numeric_enc("int", 1)), 1),
-              ("PAD", uint(5), 5), ("CAL", xdoc.ptype_num("int", xdoc.numeric_enc("int", 8), cal), 8),
+              ("PAD", uint(5), 5), ("BO8", xdoc.ptype_num("bool", xdoc.numeric_enc("int", 8)), 8),
+              ("ENS", xdoc.ptype_num("enum", xdoc.numeric_enc("int", 8, "signed"), enum=[{"raw": crit.tv_int(v), "label": f"N{v}"} for v in (-1, 0, 1, -128, 127)]), 8), ("CAL", xdoc.ptype_num("int", xdoc.numeric_enc("int", 8), cal), 8),
               ("TM", dict(xdoc.ptype_num("abstime", xdoc.numeric_enc("int", 8), {"default": poly([(rat(5, 2), 0), (rat(1, 4), 1)]), "context": []}, unit="s"), epoch="TAI"), 8)]
     out.append((12, fields))
     fields = [("STR", xdoc.ptype_sb({"k": "str", "len": {"k": "fixed", "n": 48}, "delim": WHOLE, "codec": "UTF-8"}), 48),
@@ -223,6 +224,8 @@ def run(ctx):
                     bits += [int(c) for by in LAT_SAMPLES[k % len(LAT_SAMPLES)] for c in format(by, "08b")]
                 elif nm == "EN":
                     bits += [int(c) for c in format(k % 4, "02b")]
+                elif nm == "ENS":
+                    bits += [int(c) for c in format([255, 0, 1, 128, 127][k % 5], "08b")]
                 else:
                     bits += patterns(nm, w, rng, k)
             bits += [0] * ((-len(bits)) % 8)
